@@ -64,6 +64,8 @@ type c01Hist struct {
 	adjIn map[string]map[simRouteKey]simRoute
 	local map[string]simRoute // API-injected routes by prefix
 	noRS  bool                // generate no route-server clients (their routes live in a separate table)
+
+	tolerateDown bool // C20: sessions may be refused because of concurrent administrative operations
 }
 
 func (h *c01Hist) modelAnnounce(p *c01Peer, rs simRouteSpec, m *bgp.BGPMessage) {
@@ -243,6 +245,11 @@ func (h *c01Hist) step() {
 		for _, p := range h.peers {
 			if !p.up {
 				if err := p.sp.bringUp(40); err != nil {
+					if h.tolerateDown {
+						// a management client may have disabled / shut down / deleted this neighbour
+						h.events["reestablish-refused"]++
+						break
+					}
 					h.rec.Inconclusive("c01: " + err.Error())
 					return
 				}
